@@ -71,7 +71,7 @@ func (C15) Meta() core.Meta {
 	return core.Meta{
 		Level: "fault_enumeration",
 		Rule: "a case = one process run of the real binary: operation (encrypt with -r/-R/-e -i, decrypt with -i incl. several identity files, keygen, keygen -y), key types (X25519, ssh-ed25519, ssh-rsa), armor, input size 0..3 chunks from file or pre-filled pipe, output to -o file / pipe / redirected file, damaged input (header flip, payload flip, truncation, truncation exactly at a chunk boundary), pre-existing output, -o naming the input / an identity file / a recipients file under ./x, d/../x, absolute, and non-canonical absolute (/./, /d/../, //) spellings, and one output fault: RLIMIT_FSIZE=n (sweep runs: every n in 0..len(output)), missing parent directory, target is a directory, /dev/full, stdout pipe closed before start; or (keygen-race) a second actor that creates the -o name (regular file, symbolic link or hard link, exclusively) at the moment age-keygen -y opens its FIFO input or after half of the input. Oracle: a name another party managed to create is never replaced or written through, and then the status is non-zero; exit 0 => destination holds the complete result (decrypt: == P; encrypt: reference model decrypts it to the input; keygen: parseable key file, mode 0600; keygen -y: all recipient lines); no fault and valid input => exit 0; header-level refusal => -o neither created nor modified; payload failure => output is a prefix of P; same-file => refused, files intact; keygen -o existing => refused, intact. Non-trivial = a fault, damage, pre-existing or same-file condition is present; distinct = distinct plans.",
-		Assumptions: []string{"kernel, file system and process scheduling are real and not controlled; nothing in the oracle depends on timing (pipes are pre-filled or closed before start)", "passphrase (-p / scrypt) flows need a terminal and are not exercised here", "runs as root: permission-denied destinations are not generated", "a death by signal (SIGXFSZ, SIGPIPE) counts as a non-zero status"},
+		Assumptions: []string{"kernel, file system and process scheduling are real and not controlled; nothing in the oracle depends on timing (pipes are pre-filled or closed before start)", "passphrase (-p / scrypt) flows need a terminal and are not exercised here", "runs as root: permission-denied destinations are not generated", "a death by signal (SIGXFSZ, SIGPIPE) counts as a non-zero status", "the key age-keygen generates comes from the child process's real CSPRNG: its value is checked for consistency, never logged or compared between runs"},
 		Real:        []string{"cmd/age and cmd/age-keygen binaries built from the working tree", "Linux kernel: files, pipes, RLIMIT_FSIZE, /dev/full"},
 		Stub:        []string{"argv, environment, input files, identity/recipient files, file descriptors and limits (the plan)"},
 		FaultKinds:  []string{"fault.fsize", "fault.nodir", "fault.isdir", "fault.devfull", "fault.closedpipe", "fault.damage_header", "fault.damage_payload", "fault.damage_trunc", "fault.damage_trunc_chunk", "fault.no_matching_identity", "fault.competing_creator"},
@@ -749,6 +749,9 @@ func (e C15) one(p *C15Plan, fault OutFault, c *core.Ctx, ageBin, kgBin string, 
 	san := func(x string) string { return strings.ReplaceAll(x, dir, "$D") }
 	res.stderr = san(res.stderr)
 	errLine := strings.SplitN(res.stderr, "\n", 2)[0]
+	if strings.HasPrefix(errLine, "Public key: age1") {
+		errLine = "Public key: <fresh key>" // the one value of a run the simulator does not decide
+	}
 	c.Log.Add("%s %v fault=%+v -> exit=%d dest=%d bytes (exists=%v) stderr=%q", p.Op, argvTail(argv, dir), fault, res.exit, len(got), destExists, clipS(errLine))
 	desc := fmt.Sprintf("%s (keys %v, armor=%v, |P|=%d, in=%s, out=%s, damage=%q, fault=%+v, same=%s/%s)", p.Op, p.Keys, p.Armor, p.PLen, p.InVia, p.OutVia, p.Damage, fault, p.SameAs, p.Spelling)
 
